@@ -24,7 +24,9 @@ def Consistent (i : SyncIn) (w : World) : Prop :=
 theorem sync_at_most_one (cfg : Cfg) (i : SyncIn) (w : World) (t : List Ev)
     (hc : Consistent i w) (hok : ∀ c, i.fails c = false) (hs : sync cfg i = .trace t) :
     ((w.run i.masterRs t).relaxed i.masterRs (w.run i.masterRs t).registered).length ≤ 1 := by
-  sorry
+  obtain ⟨hreg, hnd, hh⟩ := hc
+  exact OptimizationLemmas.sync_at_most_one cfg i w t hreg hnd
+    (fun h hm => ⟨(hh h hm).1, (hh h hm).2.1, (hh h hm).2.2.2⟩) hok hs
 
 /-- a registered host is dropped only after its settings were restored, or once it is no longer a
 cluster host — on every trace, with any call failing anywhere (a crash is a prefix, and the
@@ -32,14 +34,16 @@ statement is about positions in the trace) -/
 theorem restore_before_deregister (cfg : Cfg) (i : SyncIn) (t : List Ev) (pre post : List Ev) (h : String) (ok : Bool)
     (hs : sync cfg i = .trace t ∨ sync cfg i = .panic t) (hsplit : t = pre ++ ⟨.deregister h, ok⟩ :: post) :
     (⟨.restore h, true⟩ : Ev) ∈ pre ∨ ∃ r ∈ i.hosts, r.name = h ∧ r.hasNode = false := by
-  sorry
+  apply OptimizationLemmas.restore_before_deregister cfg i pre post h ok
+  rcases hs with hs | hs <;> rw [hs, ← hsplit] <;> rfl
 
 /-- a failing restore aborts the sync before anything is dropped -/
 theorem failed_restore_drops_nothing (cfg : Cfg) (i : SyncIn) (t : List Ev) (h : String)
     (hs : sync cfg i = .trace t) (hf : (⟨.restore h, false⟩ : Ev) ∈ t) :
     t.getLast? = some ⟨.restore h, false⟩ ∧ ∀ x ok, (⟨.deregister x, ok⟩ : Ev) ∈ t →
       ∃ pre post, t = pre ++ ⟨.deregister x, ok⟩ :: post ∧ (⟨.restore h, false⟩ : Ev) ∈ post := by
-  sorry
+  have hevs : (sync cfg i).evs = t := by rw [hs]; rfl
+  exact hevs ▸ OptimizationLemmas.failed_restore_drops_nothing cfg i h (hevs ▸ hf)
 
 /-- replicas without a known lag (and the master) and replicas whose lag has converged are returned to
 the master's settings and then dropped from the registry (fault-free sync) -/
@@ -47,42 +51,44 @@ theorem lost_and_converged_are_dropped (cfg : Cfg) (i : SyncIn) (t : List Ev) (r
     (hok : ∀ c, i.fails c = false) (hs : sync cfg i = .trace t) (hr : r ∈ i.hosts)
     (hcl : classify cfg i.masterRs r = .cls .malfunctioning ∨ classify cfg i.masterRs r = .cls .optimized) :
     (⟨.deregister r.name, true⟩ : Ev) ∈ t ∧ (r.hasNode = true → (⟨.restore r.name, true⟩ : Ev) ∈ t) := by
-  sorry
+  exact OptimizationLemmas.lost_and_converged_are_dropped cfg i t r hok hs
+    ((OptimizationLemmas.mem_toDisable cfg i r).2 ⟨hr, hcl.symm⟩)
 
 /-- classification in the property's terms -/
 theorem classify_lost (cfg : Cfg) (m : RS) (r : RegHost) (en : Bool) (he : r.enabled = some en)
     (h : r.isMaster = true ∨ r.lag = none) : classify cfg m r = .cls .malfunctioning := by
-  sorry
+  exact OptimizationLemmas.classify_lost cfg m r en he h
 
 theorem classify_converged (cfg : Cfg) (m : RS) (r : RegHost) (en : Bool) (l : Int) (he : r.enabled = some en)
     (hm : r.isMaster = false) (hl : r.lag = some l)
     (hc : (en = false ∧ l < cfg.highMark) ∨ (en = true ∧ l < cfg.lowMark)) : classify cfg m r = .cls .optimized := by
-  sorry
+  exact OptimizationLemmas.classify_converged cfg m r en l he hm hl hc
 
 /-- at most one host is relaxed BY a sync -/
 theorem sync_relaxes_at_most_one (cfg : Cfg) (i : SyncIn) (t : List Ev) (hs : sync cfg i = .trace t) :
     (t.filter fun e => match e.call with | .relax _ => true | _ => false).length ≤ 1 := by
-  sorry
+  have hevs : (sync cfg i).evs = t := by rw [hs]; rfl
+  exact hevs ▸ OptimizationLemmas.sync_relaxes_at_most_one cfg i
 
 /-- `DisableAll` (the pre-switchover shut-off): every host of the registry that is among the given
 nodes is restored first and deregistered only if the restore succeeded -/
 theorem disableAll_restores_then_drops (registry given : List String) (fails : Call → Bool) (h : String) (ok : Bool)
     (hd : (⟨.deregister h, ok⟩ : Ev) ∈ disableAll registry given fails) :
     h ∈ registry ∧ h ∈ given ∧ fails (.restore h) = false ∧ (⟨.restore h, true⟩ : Ev) ∈ disableAll registry given fails := by
-  sorry
+  exact OptimizationLemmas.disableAll_restores_then_drops registry given fails h ok hd
 
 /-- fault-free `DisableAll` over a duplicate-free registry leaves none of the given hosts registered or relaxed -/
 theorem disableAll_complete (registry given : List String) (w : World) (m : RS)
     (hw : w.registered = registry) (hn : registry.Nodup) :
     let w' := w.run m (disableAll registry given fun _ => false)
     (∀ h ∈ given, h ∉ w'.registered) ∧ (∀ h ∈ given, h ∈ registry → w'.get h = m) := by
-  sorry
+  exact (fun _ => OptimizationLemmas.disableAll_complete registry given w m hw) hn
 
 /-- `Controller.Wait`'s test: it reports "optimised" at once unless the registry record says
 `enabled` (nothing in the tree writes that status, so the pre-switchover wait ends at its first tick) -/
 theorem wait_returns_unless_enabled (m : Int) (state : Option Bool) (lag : Option Int) (h : state ≠ some true) :
     isOptimizedDuringWaiting m state lag = (true, false) := by
-  sorry
+  exact OptimizationLemmas.wait_returns_unless_enabled m state lag h
 
 -- non-vacuity
 private def r1 : RegHost := { name := "a", enabled := some false, isMaster := false, lag := some 500, settings := some ⟨1, 1⟩ }
